@@ -332,7 +332,41 @@ def dtype_case(ctx, index: int, rng: random.Random):
     rec.case(desc, True, cls=f"dtype/{dt}/{wkind}/{'fits' if fits else 'too_big'}/{np.dtype(h.dtype)}")
 
 
+def unbounded_axis_case(ctx, index: int, rng: random.Random):
+    """An axis whose last bin is unbounded ([a, inf), declared half-open): every finite coordinate >= a is in it, a coordinate of +inf is
+    on its (excluded) right edge and the row is missed - as find_bin says."""
+    import physt
+    from physt.binnings import StaticBinning
+
+    rec = ctx.rec
+    rec.mon("C02.h.post")
+    closed = rng.random() < 0.3
+    bx = StaticBinning(np.array([[0.0, 1.0], [1.0, np.inf]]), includes_right_edge=closed)
+    by = StaticBinning(np.array([[0.0, 1.0], [1.0, 2.0]]))
+    rows = np.array([[0.5, 0.5], [5.0, 1.5], [1e300, 0.5], [np.inf, 0.5], [np.inf, 1.5], [0.2, 1.2]][: rng.randint(4, 6)])
+    wts = np.asarray([rng.randint(1, 8) / 4 for _ in rows]) if rng.random() < 0.5 else None
+    try:
+        with warnings.catch_warnings():
+            warnings.simplefilter("ignore")
+            with np.errstate(all="ignore"):
+                h = physt.h(rows, [bx, by], **({} if wts is None else {"weights": wts}))
+    except Exception:
+        rec.case(["unbounded", closed], False, cls="unbounded_axis/refused")
+        return  # infinite coordinates may be refused
+    with attach.quiet():
+        w = np.ones(len(rows)) if wts is None else wts
+        inf_rows = np.isinf(rows[:, 0])
+        want_last = float(w[(rows[:, 0] >= 1.0) & (~inf_rows | closed) & (rows[:, 1] < 1.0)].sum())
+        want_missed = 0.0 if closed else float(w[inf_rows].sum())
+        got_last = float(np.asarray(h.frequencies)[1, 0])
+        if got_last != want_last or float(h.missed) != want_missed:
+            rec.fail(monitor="C02.h.post", op="h(unbounded last bin)", symptom="a coordinate on the excluded (infinite) right edge of a half-open last bin was counted into it", diff=["frequencies", "missed"],
+                     detail={"includes_right_edge": closed, "last_cell": got_last, "expected": want_last, "missed": float(h.missed), "expected_missed": want_missed})
+    rec.case(["unbounded", closed, len(rows), wts is not None], True, cls=f"unbounded_axis/{'closed' if closed else 'half_open'}")
+
+
 def run(ctx):
+    ctx.run_cases(ctx.scale(24, 120), unbounded_axis_case, salt="unbounded")
     ctx.run_cases(ctx.scale(150, 1000), dtype_case, salt="dtype")
     attach_monitors()
     ctx.run_cases(ctx.scale(500, 4000), one_case)
